@@ -1,5 +1,6 @@
 """C19 - wrapped text fills lines greedily up to the requested width."""
 import json
+import re
 
 import common
 from common import cstr, cnode
@@ -125,6 +126,11 @@ def text_lines(out, case, escaped):
     lines = out.split("\n")
     if any(("<p>" + a + escaped + b + "</p>") in out for a in ("", " ") for b in ("", " ")):
         return "oneline", None       # the whole element fitted on a line (possibly together with its ancestors' tags)
+    if case.get("pieces") and any(("<p>" + a + escaped + b + "</p>") in re.sub(" +", " ", out)
+                                  for a in ("", " ") for b in ("", " ")):
+        # the one-line form writes each of several adjacent text nodes collapsed on its own: blanks on both sides of a
+        # node boundary stay two blanks (the run of un-coalesced text nodes is C04's open finding, not this property's)
+        return "oneline", None
     try:
         a = lines.index(ind * d + "<p>")
     except ValueError:
@@ -144,13 +150,16 @@ def classify(finding, case):
     if finding["cls"] == "text-length-equals-width":
         return len(esc_text(" ".join(case["words"]))) == case["width"] and case["indentation"] != ""
     if finding["cls"] == "oneline-boundary-whitespace":
-        # the one-line form keeps a blank at the start/end of an un-reduced text that the fitting test did not count:
-        # the line is longer than the width by at most those blanks
+        # the one-line form keeps the blanks at the start/end of every text node (un-reduced text; boundaries between
+        # adjacent text nodes) that the fitting test did not count: the line is longer than the width by at most those
         l = case.get("line")
         if l is None:
             return False
         content = l.lstrip(" \t")
-        extra = content.count("<p> ") + content.count(" </p>")
+        extra = 0
+        for piece in (case.get("pieces") or [source_text(case)]):
+            cp = re.sub(r"\s+", " ", piece)
+            extra += len(cp) - len(cp.strip(" "))
         return extra > 0 and len(content) - extra <= case["width"]
     return False
 
